@@ -14,6 +14,7 @@ func init() {
 			sc := StdScenario(idx, r, 100)
 			s, d := sc.Build("C04", ctx.Seed, idx, r, m4(ctx.Res)...)
 			d.PReplay = 0.25
+			d.PRestart = 0.08 // replays of earlier blocks' transactions after a process restart
 			d.MaxTxs = 12
 			d.G.PInvalid, d.G.PBound = 0.1, 0.1
 			d.Run(sc.Blocks)
@@ -35,6 +36,7 @@ func init() {
 			sc := StdScenario(idx, r, 100)
 			s, d := sc.Build("C26", ctx.Seed, idx, r, m26(ctx.Res)...)
 			d.PReplay = 0.3
+			d.PRestart = 0.06
 			d.MaxTxs = 12
 			d.G.PInvalid, d.G.PBound = 0.25, 0.2
 			d.Run(sc.Blocks)
